@@ -328,8 +328,10 @@ def run (ctx):
     def consume (l_):
       avail = (lambda e: isinstance(e, ast.Attribute) and e.attr == 'available' and norm(e.value) == 'self')
       outs = set()
-      for p_, e_ in q.paths_under(repo, iow.module, gc_, q.Env({'self.receive_buf': b'abc', cr.params[1]: l_}, [(avail, 3)]), gc_.entry, [gc_.exit], iow, limit=30):
-        outs.add(e_.exact.get('self.receive_buf', '?'))
+      from .c02 import _rx_attr
+      RB, RBK, _pr = _rx_attr(iow)      # the attribute behind the receive_buf property, when the buffer is kept that way
+      for p_, e_ in q.paths_under(repo, iow.module, gc_, q.Env({RB: RBK(b'abc'), cr.params[1]: l_}, [(avail, 3)]), gc_.entry, [gc_.exit], iow, limit=30):
+        o_ = e_.exact.get(RB, '?'); outs.add(bytes(o_) if isinstance(o_, (bytes, bytearray)) else '?')
       return outs
     over, within = consume(5), consume(2)
     if '?' in over | within or not within:
